@@ -61,8 +61,8 @@ def run(prog, rep, tier):
     # regress / mse read self.mean and self.covariance: the constructor must have stored the given moments themselves
     from .C05 import ctor_rules
     ctor_rules(rep, prog)
-    from ..sym import UNIT_HELPERS
-    inl = lambda g: g.qname in (U + "matrix_block",) or (g.name.startswith("_") and not g.name.startswith("__") and g.qname not in UNIT_HELPERS)
+    from ..sym import UNIT_HELPERS, private_class
+    inl = lambda g: g.qname in (U + "matrix_block",) or (((g.name.startswith("_") and not g.name.startswith("__")) or private_class(g)) and g.qname not in UNIT_HELPERS)
     f = need(prog, ND + "regress")
     S = Sym(prog, inline=inl)
     summ, _ = run_function(S, f)
